@@ -1,4 +1,5 @@
 import ElfiVerif.Proofs.Bo
+import ElfiVerif.Proofs.BoAsync
 
 /-!
 # C11 — Bayesian optimisation simulates only inside the bounds and trains on what it ran
@@ -140,6 +141,33 @@ theorem bo_sync_acquire_events (P : BoParams τ β) (hsync : P.sync = true) (hbp
     (h : BoEng.run P mpb BoEng.init sched = some e) :
     ∀ t n p, BoEv.acquired t n p ∈ e.log → p = 0 ∧ n = P.nInit + t * P.bpa :=
   bo_sync_acquire_events' P hsync hbpa hacq mpb sched e h
+
+/-- **Under EVERY schedule, synchronous or asynchronous, the batches after the initial evidence run with
+acquired points**: batch `k < nInit` runs with prior draws; batch `k ≥ nInit` runs with slice
+`(k − nInit) mod bpa` of the acquisition `t = (k − nInit) / bpa`, made on a surrogate that held the first
+`n` consumed batches for some `n` (with synchronous acquisition `n` is all of them, see
+`bo_sync_acquire_events`; with `async_acq` it is whatever had arrived).  The acquisition index comes from
+the index of the batch being SUBMITTED, not from the number of batches consumed so far - with batches
+in flight the two differ. -/
+theorem bo_batches_after_init_are_acquired (P : BoParams τ β) (hbpa : 0 < P.bpa)
+    (hacq : ∀ ev t, (P.acquire ev t).length = P.bpa) (mpb : Nat) (sched : List Act) (e : BoEng τ β)
+    (h : BoEng.run P mpb BoEng.init sched = some e) :
+    ∀ k (hk : k < e.ev.length),
+      (k < P.nInit → e.ev[k] = P.sim k none) ∧
+      (P.nInit ≤ k → ∃ n, n ≤ e.ev.length ∧ ∃ x,
+        (P.acquire (e.ev.take n) ((k - P.nInit) / P.bpa))[(k - P.nInit) % P.bpa]? = some x ∧
+        e.ev[k] = P.sim k (some x)) :=
+  bo_batches_after_init_are_acquired' P hbpa hacq mpb sched e h
+
+/-- non-vacuity for the asynchronous engine: three batches in flight across the initial-evidence boundary;
+batches 1 and 2 run with acquisitions made on an EMPTY surrogate (nothing had arrived), batch 3 with one
+made after two arrivals -/
+theorem bo_async_example :
+    let P : BoParams (Nat × Option Nat) Nat :=
+      { nInit := 1, bpa := 1, total := 4, sync := false, sim := fun i a => (i, a), acquire := fun ev t => [10 * t + ev.length] }
+    (BoEng.run P 3 BoEng.init [.submit, .submit, .submit, .consume, .consume, .submit, .consume, .consume]).map (·.ev) =
+      some [(0, none), (1, some 0), (2, some 10), (3, some 22)] :=
+  bo_async_example'
 
 /-- the gate matters: with `async_acq` two schedules give different evidence -/
 theorem bo_async_counterexample :
